@@ -1474,3 +1474,29 @@ def torch_floor(interp, x):
     if x.dtype != FLOAT:
         return x
     return T.tunary(V.f_floor, x)
+
+
+@lib("torch.index_select")
+def torch_index_select(interp, t, dim, index):
+    """out[..., i, ...] = t[..., index[i], ...] along `dim`; an out-of-range index raises."""
+    dim = dim % t.rank
+    if index.rank != 1:
+        raise PyExc("IndexError", ("index_select(): Index is supposed to be a vector",))
+    rd, ir = t.reader(), index.reader()
+    n = t.shape[dim]
+    L = index.shape[0]
+    if isinstance(L, int):
+        for i in range(L):
+            j = ir([i])
+            if isinstance(j, int):
+                if not (isinstance(n, int) and 0 <= j < n) and isinstance(n, int):
+                    raise PyExc("IndexError", ("index out of range in self",))
+            else:
+                interp.path.require(V.b_and(V.i_le(0, j), V.i_lt(j, n)), "IndexError", "index out of range in self")
+    else:
+        q = z3.Int(V.fresh_name("isel"))
+        ok = z3.ForAll([q], V.zbool(V.b_implies(V.b_and(q >= 0, V.i_lt(q, L)), V.b_and(V.i_le(0, ir([q])), V.i_lt(ir([q]), n)))))
+        interp.path.require(ok, "IndexError", "index out of range in self")
+    shape = list(t.shape)
+    shape[dim] = L
+    return T.from_fn(shape, t.dtype, lambda idx: rd(list(idx[:dim]) + [ir([idx[dim]])] + list(idx[dim + 1:])), kind=t.kind)
